@@ -26,11 +26,14 @@ pub struct PipeCfg {
     pub pend_ppm: u32,
     /// latency of each accepted write, microseconds (min, max); arrival is kept monotone (FIFO)
     pub latency_us: (u64, u64),
+    /// a flush that follows a write completes only this many microseconds later (the bytes themselves are
+    /// delivered as usual): a transport whose flush is slower than its delivery
+    pub flush_delay_us: u64,
 }
 
 impl Default for PipeCfg {
     fn default() -> Self {
-        PipeCfg { capacity: 1 << 20, rcut_ppm: 0, wcut_ppm: 0, one_byte_ppm: 0, pend_ppm: 0, latency_us: (0, 0) }
+        PipeCfg { capacity: 1 << 20, rcut_ppm: 0, wcut_ppm: 0, one_byte_ppm: 0, pend_ppm: 0, latency_us: (0, 0), flush_delay_us: 0 }
     }
 }
 
@@ -210,6 +213,8 @@ pub struct PipeReader {
 
 pub struct PipeWriter {
     sh: Shared,
+    flush_sleep: Option<Pin<Box<Sleep>>>,
+    dirty: bool,
 }
 
 pub fn pipe(cfg: PipeCfg) -> (PipeWriter, PipeReader, PipeCtl) {
@@ -251,7 +256,7 @@ pub fn pipe(cfg: PipeCfg) -> (PipeWriter, PipeReader, PipeCtl) {
         mark_read_at: None,
     };
     let sh = Arc::new(Mutex::new(inner));
-    (PipeWriter { sh: sh.clone() }, PipeReader { sh: sh.clone(), sleep: None }, PipeCtl(sh))
+    (PipeWriter { sh: sh.clone(), flush_sleep: None, dirty: false }, PipeReader { sh: sh.clone(), sleep: None }, PipeCtl(sh))
 }
 
 /// fraction decision: 255 = everything (quiet); otherwise keep ceil(avail * v / 256), at least 1
@@ -422,7 +427,7 @@ impl Drop for PipeReader {
 }
 
 impl AsyncWrite for PipeWriter {
-    fn poll_write(self: Pin<&mut Self>, cx: &mut Context<'_>, data: &[u8]) -> Poll<io::Result<usize>> {
+    fn poll_write(mut self: Pin<&mut Self>, cx: &mut Context<'_>, data: &[u8]) -> Poll<io::Result<usize>> {
         let sh = self.sh.clone();
         let mut p = sh.lock().unwrap();
         let id = p.id;
@@ -517,12 +522,28 @@ impl AsyncWrite for PipeWriter {
         let tw = p.total_written;
         p.wake_reader();
         drop(p);
+        self.dirty = true;
         world::log("pipe.write", id, tw);
         Poll::Ready(Ok(n))
     }
 
-    fn poll_flush(self: Pin<&mut Self>, _cx: &mut Context<'_>) -> Poll<io::Result<()>> {
+    fn poll_flush(mut self: Pin<&mut Self>, cx: &mut Context<'_>) -> Poll<io::Result<()>> {
         let sh = self.sh.clone();
+        // slow flush: completes `flush_delay_us` after the first flush poll that follows a write
+        let delay = sh.lock().unwrap().cfg.flush_delay_us;
+        if delay > 0 && (self.dirty || self.flush_sleep.is_some()) {
+            if self.flush_sleep.is_none() {
+                self.flush_sleep = Some(Box::pin(tokio::time::sleep(Duration::from_micros(delay))));
+                self.dirty = false;
+                world::fault_fired("transport.slow_flush");
+            }
+            let done = self.flush_sleep.as_mut().unwrap().as_mut().poll(cx).is_ready();
+            if !done {
+                return Poll::Pending;
+            }
+            self.flush_sleep = None;
+        }
+        self.dirty = false;
         let mut p = sh.lock().unwrap();
         let id = p.id;
         if let Some(at) = p.flush_fault {
